@@ -465,7 +465,17 @@ class DeferredSender (threading.Thread):
       with self._lock:
         cons = list(self._dataForConnection.keys())
 
-      rlist, wlist, elist = select.select([self._waker], cons, cons, 5)
+      try:
+        rlist, wlist, elist = select.select([self._waker], cons, cons, 5)
+      except Exception:
+        # One of the connections has probably been closed meanwhile (select
+        # on a closed socket fails).  Forget dead connections and go around
+        # again instead of letting this thread die.
+        with self._lock:
+          for con in cons:
+            if con.disconnected:
+              self._dataForConnection.pop(con, None)
+        continue
       if not core.running: break
 
       with self._lock:
